@@ -294,7 +294,8 @@ class Enumerator:
 
     def pred(self, inst, mname):
         fn = self.px.method(inst["__class__"], mname)
-        body = [s for s in fn.body if not (isinstance(s, ast.Expr) and isinstance(s.value, ast.Constant)) and not isinstance(s, ast.Pass)]
+        from ..core import is_noop_stmt
+        body = [s for s in fn.body if not is_noop_stmt(s)]
         if len(body) != 1 or not isinstance(body[0], ast.Return):
             raise AnalysisError(f"C02: predicate {inst['__class__']}.{mname} is not a single return expression")
         return self.pexpr(inst, body[0].value)
